@@ -94,12 +94,42 @@ Proof.
   destruct (seven_histories ops u su C Hf Ho n) as (u' & su' & A & B & _ & D). exists u', su'. auto.
 Qed.
 
-(* C07_statement restricted to the seven setters and to start URLs of the three proved no-base classes of
-   non-special schemes: opaque path, "scheme:/path", "scheme://authority" *)
-Theorem seven_from_classes input u ops : usv_list input ->
+(* parsing yields corrS on the three proved no-base classes of non-special schemes: opaque path,
+   "scheme:/path", "scheme://authority" *)
+Definition in_corrS_class (input : list N) : Prop :=
   in_class_opaque input = true \/ in_class_pathonly input = true
   \/ (in_class_authority input = true /\ host_agree ho hd shp shs (class_host_text input)
-      /\ host_extra ho hd shp (class_host_text input)) ->
+      /\ host_extra ho hd shp (class_host_text input)).
+
+Theorem parse_classes_corrS input u : usv_list input -> in_corrS_class input ->
+  parse_url dbg hp ho hd None None input = POk u ->
+  exists su, spec_basic_url_parse shp input None = BDone su /\ corrS u su.
+Proof.
+  intros Hu Hc Ep.
+  destruct Hc as [Hc|[Hc|(Hc & HA & HX)]].
+  - unfold in_class_opaque in Hc. rewrite C01_EqEnc.spec_clean_is_ntnl_trim in Hc.
+    destruct (spec_scheme (C08_Input.ntnl (input_new_trim_c0 input))) as [[sch rest]|] eqn:Es; [|discriminate Hc].
+    apply andb_true_iff in Hc. destruct Hc as [H1 H2].
+    destruct (spec_scheme_model _ _ _ Es) as (rem & Hs & Hrem).
+    assert (is_special_scheme sch = false) as Hns by (destruct (is_special_scheme sch); [discriminate | reflexivity]).
+    assert (starts_with_cp 47 rest = false) as H47 by (destruct (starts_with_cp 47 rest); [discriminate | reflexivity]).
+    rewrite <- Hrem in H47.
+    destruct (opaque_class_corrS dbg hp ho hd shp shs input sch rem Hu Hs (not_special_type sch Hns)
+                (split_of_starts_with_cp rem H47)) as (su & Esp & [E|(u0 & E & C)]).
+    + rewrite Ep in E. discriminate E.
+    + rewrite Ep in E. inversion E; subst u0. exists su. split; assumption.
+  - destruct (pathonly_class_corrS dbg hp ho hd shp shs input Hu Hc) as (su & Esp & [E|(u0 & E & C)]).
+    + rewrite Ep in E. discriminate E.
+    + rewrite Ep in E. inversion E; subst u0. exists su. split; assumption.
+  - pose proof (authority_class_corrS dbg hp ho hd None shp shs input Hu Hc HA HX) as K.
+    destruct (spec_basic_url_parse shp input None) as [su|uf|]; [| |contradiction].
+    + destruct K as [E|(u0 & E & C)]; [rewrite Ep in E; discriminate E|].
+      rewrite Ep in E. inversion E; subst u0. exists su. split; [reflexivity | exact C].
+    + destruct K as [e E]. rewrite Ep in E. discriminate E.
+Qed.
+
+(* C07_statement restricted to the seven setters and to start URLs of these classes *)
+Theorem seven_from_classes input u ops : usv_list input -> in_corrS_class input ->
   parse_url dbg hp ho hd None None input = POk u ->
   seven_ops ops -> outside_known dbg hp ho hd u ops ->
   exists su, spec_basic_url_parse shp input None = BDone su
@@ -109,29 +139,23 @@ Theorem seven_from_classes input u ops : usv_list input ->
          /\ spec_run shp su (firstn n ops) = Some su'
          /\ model_api dbg u' = Some (spec_api_list shs su').
 Proof.
-  intros Hu Hc Ep Hf Ho.
-  assert (exists su, spec_basic_url_parse shp input None = BDone su /\ corrS u su) as (su & Esp & C).
-  { destruct Hc as [Hc|[Hc|(Hc & HA & HX)]].
-    - unfold in_class_opaque in Hc. rewrite C01_EqEnc.spec_clean_is_ntnl_trim in Hc.
-      destruct (spec_scheme (C08_Input.ntnl (input_new_trim_c0 input))) as [[sch rest]|] eqn:Es; [|discriminate Hc].
-      apply andb_true_iff in Hc. destruct Hc as [H1 H2].
-      destruct (spec_scheme_model _ _ _ Es) as (rem & Hs & Hrem).
-      assert (is_special_scheme sch = false) as Hns by (destruct (is_special_scheme sch); [discriminate | reflexivity]).
-      assert (starts_with_cp 47 rest = false) as H47 by (destruct (starts_with_cp 47 rest); [discriminate | reflexivity]).
-      rewrite <- Hrem in H47.
-      destruct (opaque_class_corrS dbg hp ho hd shp shs input sch rem Hu Hs (not_special_type sch Hns)
-                  (split_of_starts_with_cp rem H47)) as (su & Esp & [E|(u0 & E & C)]).
-      + rewrite Ep in E. discriminate E.
-      + rewrite Ep in E. inversion E; subst u0. exists su. split; assumption.
-    - destruct (pathonly_class_corrS dbg hp ho hd shp shs input Hu Hc) as (su & Esp & [E|(u0 & E & C)]).
-      + rewrite Ep in E. discriminate E.
-      + rewrite Ep in E. inversion E; subst u0. exists su. split; assumption.
-    - pose proof (authority_class_corrS dbg hp ho hd None shp shs input Hu Hc HA HX) as K.
-      destruct (spec_basic_url_parse shp input None) as [su|uf|]; [| |contradiction].
-      + destruct K as [E|(u0 & E & C)]; [rewrite Ep in E; discriminate E|].
-        rewrite Ep in E. inversion E; subst u0. exists su. split; [reflexivity | exact C].
-      + destruct K as [e E]. rewrite Ep in E. discriminate E. }
+  intros Hu Hc Ep Hf Ho. destruct (parse_classes_corrS input u Hu Hc Ep) as (su & Esp & C).
   exists su. split; [exact Esp|]. exact (seven_from_corrS u su ops C Hf Ho).
+Qed.
+
+(* the shape of C07_statement: one abstraction relation with the three clauses - observation, parsing (on the
+   three classes), one assignment (through the seven setters) *)
+Theorem statement_seven_classes :
+  exists R : url -> spec_url -> Prop,
+    (forall u su, R u su -> model_api dbg u = Some (spec_api_list shs su))
+    /\ (forall input u, usv_list input -> in_corrS_class input ->
+          parse_url dbg hp ho hd None None input = POk u ->
+          exists su, spec_basic_url_parse shp input None = BDone su /\ R u su)
+    /\ (forall u su s v, R u su -> seven s = true -> usv_list v -> known_c07 u s v = 0 ->
+          exists u' su', model_set dbg hp ho hd s u v = Some u' /\ spec_step shp s su v = Some su' /\ R u' su').
+Proof.
+  exists corrS. split; [intros u su C; exact (corr_api dbg shs u su (proj1 C))|].
+  split; [exact parse_classes_corrS | exact seven_step].
 Qed.
 
 End Seven.
